@@ -165,11 +165,18 @@ func (e *End) Write(p []byte) (int, error) {
 			h := e.out
 			h.mu.Lock()
 			rec := &WriteRec{Data: append([]byte(nil), p...), Accepted: j, Begin: h.tick(), Err: ErrSimFault}
+			if f.Kind == "read_err_soft" {
+				rec.Err = ErrSimSoft
+			}
 			rec.End = rec.Begin
 			h.log = append(h.log, rec)
 			h.queue = append(h.queue, p[:j]...)
 			h.total += j
 			h.mu.Unlock()
+			if f.Kind == "read_err_soft" {
+				// the soft fault on a write: j bytes taken, an error of the temporary shape, the socket stays usable
+				return j, ErrSimSoft
+			}
 			e.Fail(true)
 			return j, ErrSimFault
 		}
